@@ -52,22 +52,26 @@ def _cvc5_retry(smt2, timeout_s):
 
 
 def run_harness(args):
-    name, tier = args
+    name, tier = args[0], args[1]
+    repo_root = args[2] if len(args) > 2 and args[2] else REPO
     t0 = time.time()
     out = dict(name=name, results=[], errors=[], stats={}, functions={}, files={}, wall_s=0.0, dropped=[])
     try:
         from pyvc import engine as ENG, harness as H
         reg = {h.name: h for h in load_contracts()}
         h = reg[name]
-        E = ENG.Engine(backend=h.backend, repo_root=REPO)
+        E = ENG.Engine(backend=h.backend, repo_root=repo_root)
         if tier == 'thorough':
             E.prove_timeout_ms = 120000
             E.branch_timeout_ms = 20000
+        if tier == 'mutation':          # pyvc.mutants: short budgets, no second back end (unknown = "noticed", not killed)
+            E.prove_timeout_ms = int(os.environ.get('PYVC_MUT_PROVE_MS', '4000'))
+            E.branch_timeout_ms = 2000
         H.install_common_stubs(E)
         results, errors = E.explore(h.fn, max_paths=h.max_paths)
         for r in results:
             d = r.to_json()
-            if r.status == 'unknown' and r.smt2:
+            if r.status == 'unknown' and r.smt2 and tier != 'mutation':
                 res, dt = _cvc5_retry(r.smt2, 60 if tier == 'quick' else 300)
                 if res == 'unsat':
                     d['status'] = 'proved'
@@ -242,7 +246,7 @@ def main(argv=None):
             crashes.append('%s: no reachable cover point (vacuity guard)' % h.name)
         per_harness.append(dict(harness=h.name, backend=h.backend, kind=h.kind, obligations=ho, discharged=hd,
                                 covers=hcov, paths=o['stats'].get('paths'), wall_s=round(o['wall_s'], 2),
-                                functions=h.functions))
+                                functions=h.functions, executed=sorted(o['functions'])))
     status = 0
     lines = []
     for kl in sorted(set(known_lines)):
